@@ -2,7 +2,7 @@
    Model: Model/VConstraint.v.  Proofs: Proofs/RangeSpec.v, RangeAlg.v, RangeOps.v, UnionHull.v, UnionExact.v. *)
 From Coq Require Import List Bool NArith String.
 From PC Require Import Base.Cmp Base.Result Model.Pep440 Spec.Pep440Spec Model.VConstraint
-     Proofs.VersionFacts Proofs.RangeSpec Proofs.RangeAlg Proofs.RangeOps Proofs.UnionHull Proofs.UnionExact Proofs.Contain Proofs.InterExact Proofs.DiffExact Proofs.DiffUnion Proofs.UnionTotalGood Proofs.DiffTotal Proofs.InterTotal Model.VHyp.
+     Proofs.VersionFacts Proofs.RangeSpec Proofs.RangeAlg Proofs.RangeOps Proofs.UnionHull Proofs.UnionExact Proofs.Contain Proofs.InterExact Proofs.DiffExact Proofs.DiffUnion Proofs.UnionTotalGood Proofs.DiffTotal Proofs.InterTotal Model.VHyp Proofs.SortedOrder Proofs.UnionSorted Proofs.Closure.
 From PC Require Import Gen.RangeCmp Proofs.GenAgreeRange.
 Import ListNotations.
 
@@ -201,3 +201,33 @@ Proof.
   split; [apply is_strictly_lower_agrees|]. split; [apply is_strictly_higher_agrees|apply is_adjacent_to_agrees].
 Qed.
 Print Assumptions C05_comparisons_of_current_source.
+
+(* ---- closure: the hypotheses of the exactness theorems are preserved by the operations ----
+   [sorted_c] (members in order, each strictly below the next) was a hypothesis that the check evaluates on every generated operand.
+   It is what VersionUnion.of establishes: over bounds that are mutually regular ([mutual B]: any two bounds are equal or of
+   different release classes), the sorted, look-back-merging loop returns members in order and strictly apart
+   (Proofs/SortedOrder.v: the order facts by the rank embedding; Proofs/UnionSorted.v: the loop invariant). *)
+Theorem C05_union_of_is_sorted : forall B, mutual B -> forall fuel cs c, forallb goodc cs = true -> incl (flat_map cbounds cs) B ->
+  vunion_of fuel cs = Ok c -> sorted_c c = true.
+Proof. exact vunion_of_sorted. Qed.
+Print Assumptions C05_union_of_is_sorted.
+(* hence the class K_B of constraints over B - members good, in order, strictly apart ([inK B c]) - is closed under the three
+   operations, and on it each operation is exact on every probe that is regular for B, with no further hypothesis (the
+   no_local_hole side condition of C05_union_exact / C05_difference_exact follows from membership in the class) *)
+Theorem C05_class_closed_and_exact : forall B, mutual B -> forall a b, inK B a -> inK B b ->
+  (forall c, union a b = Ok c -> inK B c /\ forall v, wf v = true -> regB B v = true -> sem c v = sem a v || sem b v) /\
+  (forall c, intersect a b = Ok c -> inK B c /\ forall v, wf v = true -> regB B v = true -> sem c v = sem a v && sem b v) /\
+  (forall c, difference a b = Ok c -> inK B c /\ forall v, wf v = true -> regB B v = true -> sem c v = sem a v && negb (sem b v)).
+Proof. exact class_closed_and_exact. Qed.
+Print Assumptions C05_class_closed_and_exact.
+(* ... and so is every history of operations: whatever expression is built from union / intersect / difference over constraints of the
+   class, if it evaluates then the result is in the class and admits exactly what the expression means *)
+Theorem C05_every_expression : forall B, mutual B -> forall e c, leaves_in B e -> ceval e = Ok c ->
+  inK B c /\ forall v, wf v = true -> regB B v = true -> sem c v = cmeans e v.
+Proof. exact expr_exact. Qed.
+Print Assumptions C05_every_expression.
+(* not vacuous: three parsed constraints (one of them an exclusion), their eleven bounds mutually regular, an expression of depth three *)
+Example C05_expression_example :
+  mutual ex_B /\ leaves_in ex_B ex_e /\
+  match ceval ex_e with Ok c => vc_str c | Err e => Err e end = Ok ">=1.0,<1.5 || >=2.0,<=3.0 || >3.5,<=4.0 || >5.0"%string.
+Proof. exact (conj ex_mutual (conj ex_leaves ex_eval)). Qed.
